@@ -31,8 +31,7 @@ class Initializer:
         return move_random(self.conv.search_space_positions)
 
     def add_n_random_init_pos(self, n):
-        for _ in range(n):
-            self.init_positions_l.append(self.move_random())
+        self.init_positions_l.extend(self._init_random_search(n))
 
         self.n_inits = len(self.init_positions_l)
 
